@@ -10,8 +10,10 @@
    Copeland (raw and second order), minimax, Schulze, ranked pairs, Kemeny-Young (C05_nobody_dropped_full: the whole
    clause); Smith efficiency of Copeland (raw and second order), Schulze (by the number of path-wins), ranked pairs
    (three scorers) and Kemeny-Young, also for a reported tie (Proofs/SmithEff_proofs.v).  The run-off hybrids
-   (Benham, Tideman alternative) have no Coq model and are decided per case on the implementation by the check
-   (C05 evidence: "partial"). *)
+   (Benham, Tideman alternative; Model/Hybrids.v, Proofs/Hybrids_proofs.v, end of this file): for every ranked profile
+   a Condorcet winner of its pairwise dictionary is returned alone, the winner of Tideman alternative lies in the
+   Smith set, the winner of Benham lies in the Smith set once a tie in the elimination is refused (refuted for the
+   elimination step of the pinned tree), restriction of the ballots = restriction of the dictionary. *)
 From Coq Require Import ZArith List Arith.
 From VL Require Import Prelude.PyDict Model.GetNBest Model.Condorcet Proofs.Condorcet_proofs Proofs.CopelandMono_proofs Proofs.SmithCopeland_proofs Proofs.Minimax_proofs Proofs.Schulze_proofs.
 Import ListNotations.
@@ -354,6 +356,85 @@ Proof.
   vm_compute. repeat split; reflexivity.
 Qed.
 
+(* ------------------------------------------------------------------ the Condorcet-runoff hybrids
+   Benham and Tideman alternative (votelib/evaluate/sequential.py L629-725; Model/Hybrids.v, proofs Proofs/Hybrids_proofs.v)
+   on ranked profiles with truncation and shared ranks, integer weights.  [wf_votes]: no candidate twice on a ballot, no
+   negative weight.  [pairwise] = RankedToCondorcetVotes(unranked_at_bottom=True), [subset_votes] = SubsettedVotes(RankedSubsetter).
+   [fx = false]: the elimination step as written on the pinned tree (a Tie object of eliminate_one is used as a candidate);
+   [fx = true]: with fixes/C05-hybrid-elimination-tie.diff (a tie among the candidates to eliminate is refused). *)
+From VL Require Import Model.Convert Model.Hybrids Proofs.Hybrids_proofs.
+
+(* restricting the ballots to a set of candidates restricts the pairwise dictionary to that set: the counts between
+   members of the set are unchanged, and nobody outside the set is left in the dictionary *)
+Theorem C05_subset_restriction : forall (S : list C) (votes : rvotes) (a b : C),
+  wf_votes votes = true -> In a S -> In b S ->
+  pget0 (pairwise (subset_votes S votes)) (a, b) = pget0 (pairwise votes) (a, b).
+Proof. exact subset_restriction. Qed.
+
+Theorem C05_subset_candidates : forall (S : list C) (votes : rvotes) (x : C),
+  In x (candidates (pairwise (subset_votes S votes))) -> In x S /\ In x (cands_of votes).
+Proof. intros S votes x H. apply subset_cands. apply candidates_pairwise_in. exact H. Qed.
+
+(* a Condorcet winner of the profile's pairwise dictionary is returned alone by both hybrids, whichever elimination step
+   the code has (no elimination round is entered: the Smith set is {c}) *)
+Theorem C05_cw_benham : forall (fx : bool) (votes : rvotes) (c : C),
+  wf_votes votes = true -> is_cw (pairwise votes) c -> benham fx votes = H_ok [Cand c].
+Proof. exact cw_benham. Qed.
+
+Theorem C05_cw_tideman : forall (fx : bool) (votes : rvotes) (c : C),
+  wf_votes votes = true -> is_cw (pairwise votes) c -> tideman_alt fx votes 1 = H_ok [Cand c].
+Proof. exact cw_tideman. Qed.
+
+(* Smith containment.  Tideman alternative: whatever the elimination step does (fx), for every seat count, a plain winner
+   lies in the Smith set of the ORIGINAL profile - after the first round only members of that set are left on the ballots *)
+Theorem C05_smith_tideman : forall (fx : bool) (votes : rvotes) (n : nat) (c : C),
+  wf_votes votes = true -> tideman_alt fx votes n = H_ok [Cand c] ->
+  In c (smith_schwartz (pairwise votes) true).
+Proof. exact smith_tideman. Qed.
+
+(* Benham: a plain winner lies in the Smith set of the original profile (invariant: a member of the Smith set is still on the
+   ballots - if the only one left were eliminated it would beat everybody else left and be their Condorcet winner) *)
+Definition C05_smith_benham_full_statement (fx : bool) : Prop :=
+  forall (votes : rvotes) (c : C),
+    wf_votes votes = true -> pairwise votes <> [] ->
+    benham fx votes = H_ok [Cand c] -> In c (smith_schwartz (pairwise votes) true).
+
+Theorem C05_smith_benham : C05_smith_benham_full_statement true.
+Proof. exact smith_benham. Qed.
+
+(* the pinned tree: B and A tie for the third place among A, B, C, D; the Tie object is no candidate, both are dropped at once,
+   C beats D and wins although the Smith set is {A, B} (A = 1 ... E = 5; known finding C05-hybrid-elimination-tie) *)
+Definition C05_benham_witness : rvotes :=
+  [([IP 2%positive; IP 1%positive; IP 3%positive; IP 5%positive], 2); ([IP 1%positive; IP 2%positive], 2);
+   ([IP 3%positive], 3); ([IP 4%positive], 3)].
+Theorem C05_smith_benham_refuted : ~ C05_smith_benham_full_statement false.
+Proof.
+  intros H. specialize (H C05_benham_witness 3%positive).
+  assert (Hin : In 3%positive (smith_schwartz (pairwise C05_benham_witness) true)).
+  { apply H; [vm_compute; reflexivity|vm_compute; discriminate|vm_compute; reflexivity]. }
+  vm_compute in Hin. destruct Hin as [Hin|[Hin|[]]]; discriminate Hin.
+Qed.
+
+(* the fuel of the model's elimination loops always suffices: every round removes at least one candidate from the ballots *)
+Theorem C05_hybrid_fuel : forall (fx : bool) (votes : rvotes) (n : nat),
+  wf_votes votes = true -> benham fx votes <> H_fuel /\ tideman_alt fx votes n <> H_fuel.
+Proof. intros fx votes n Hwf. split; [exact (benham_fuel fx votes Hwf)|exact (tideman_fuel fx votes n Hwf)]. Qed.
+
+(* non-vacuity: a three-candidate cycle above a fourth candidate, no Condorcet winner; both hybrids go through an elimination
+   round and elect a member of the Smith set {1, 2, 3}; the witness of the refutation is repaired by the fix (refusal) *)
+Definition C05_hybrid_example : rvotes :=
+  [([IP 1%positive; IP 2%positive; IP 3%positive; IP 4%positive], 4); ([IP 2%positive; IP 3%positive; IP 1%positive; IP 4%positive], 3);
+   ([IP 3%positive; IP 1%positive; IS [2%positive; 4%positive]], 2)].
+Example C05_hybrid_example_runs :
+  wf_votes C05_hybrid_example = true /\ pairwise C05_hybrid_example <> [] /\
+  condorcet_winner (pairwise C05_hybrid_example) = [] /\
+  smith_schwartz (pairwise C05_hybrid_example) true = [1%positive; 2%positive; 3%positive] /\
+  benham true C05_hybrid_example = H_ok [Cand 1%positive] /\ benham false C05_hybrid_example = H_ok [Cand 1%positive] /\
+  tideman_alt true C05_hybrid_example 1 = H_ok [Cand 1%positive] /\
+  benham true C05_benham_witness = H_nie /\ benham false C05_benham_witness = H_ok [Cand 3%positive] /\
+  smith_schwartz (pairwise C05_benham_witness) true = [2%positive; 1%positive].
+Proof. vm_compute. repeat split; try reflexivity. discriminate. Qed.
+
 Print Assumptions C05_cw_copeland.
 Print Assumptions C05_copeland_score.
 Print Assumptions C05_smith_copeland.
@@ -389,3 +470,11 @@ Print Assumptions C05_copeland2_nobody_dropped.
 Print Assumptions C05_nobody_dropped_full.
 Print Assumptions C05_smith_copeland_first.
 Print Assumptions C05_smith_schulze_first.
+Print Assumptions C05_subset_restriction.
+Print Assumptions C05_subset_candidates.
+Print Assumptions C05_cw_benham.
+Print Assumptions C05_cw_tideman.
+Print Assumptions C05_smith_tideman.
+Print Assumptions C05_smith_benham.
+Print Assumptions C05_smith_benham_refuted.
+Print Assumptions C05_hybrid_fuel.
